@@ -275,9 +275,8 @@ def run(tier, seed, replay_case=None):
     rep = core.Report(PROP, tier, seed)
     core.lean_build()
     aud = core.audit(PROP)
-    # big (> 10^4 results per file, real thresholds) only in the thorough tier: the model
-    # evaluation of such files is slow; quick crosses the thresholds by patching them down
-    nruns, nbig = (40, 0) if tier == 'quick' else (600, 12)
+    # big = > 10^4 results per file with the REAL thresholds (buffer flush at 10 000)
+    nruns, nbig = (40, 1) if tier == 'quick' else (600, 12)
     items = []
     corpus = core.load_corpus(PROP) if replay_case is None else [replay_case]
     if corpus:
